@@ -187,6 +187,11 @@ class Sim:
             if not p._is_starving and p._cur_capacity == p._max_capacity - 1 and any(
                     b.quota - b.count_conns() >= 2 for b in p._blocks.values()):
                 self.rebalance_stats['two_under_at_max_minus_1'] += 1
+            room = p._max_capacity - p._cur_capacity
+            short = [b.quota - b.count_conns() for b in p._blocks.values()
+                     if b.quota - b.count_conns() > 0]
+            if not p._is_starving and room > 0 and len(short) >= 2 and sum(short) > room:
+                self.rebalance_stats['several_under_sharing_room'] += 1
             return orig_rebalance()
         self.pool._maybe_rebalance = _rebalance_probe
         self.n_conn = 0          # connection ids
@@ -200,7 +205,7 @@ class Sim:
         self.fut_task = {}       # id(waiter future) -> task id (remembered: a cancelled task forgets its waiter)
         self.cancelled = set()   # tasks the harness cancelled
         self.late_cancel_dbs = set()
-        self.rebalance_stats = {'calls': 0, 'two_under_at_max_minus_1': 0}
+        self.rebalance_stats = {'calls': 0, 'two_under_at_max_minus_1': 0, 'several_under_sharing_room': 0}
         self.fut_did = {}
         self.keep = []           # keep futures alive (ids stay unique)
         self.tasks = collections.OrderedDict()        # t -> (kind, db, task)
